@@ -52,6 +52,9 @@ let out_s = function
   | OHandle (HProxy x) -> "p" ^ string_of_int (int_of_nat x)
   | OHandle (HDirect d) -> dest_s d
 
+(* quiescence fuel: built once (nat is unary; building it per phase dominated the run time) *)
+let fuel = nat_of_int 4000
+
 let rec take n l = if n = 0 then [] else match l with [] -> [] | x :: r -> x :: take (n - 1) r
 
 let run_seq (ops : op list) : string =
@@ -62,7 +65,7 @@ let run_seq (ops : op list) : string =
   let i = ref 0 in
   while !i < n && not !hang do
     let before = !c in
-    (match quiesce !variant (nat_of_int 100000) before (nat_of_int (!i + 1)) with
+    (match quiesce !variant fuel before (nat_of_int (!i + 1)) with
      | None -> Buffer.add_string b "FUEL"; hang := true
      | Some c' ->
        c := c';
